@@ -12,13 +12,21 @@ RULE = ('Random RP66V1 files from an independent encoder (tdv.gen.eflr over tdv.
         '0..8 further sets (public and private set types, optional set name), templates of 1..8 attributes with any subset of '
         '{count, code, units, value}, ordinary or invariant, 0..12 uniquely named objects whose components override any subset of '
         '{count, code, units, value}, are ABSATR, or are omitted at the end (0..all); values of all 19 supported representation codes, '
-        'scalar and counted; encrypted records with random bodies interleaved; random physical layout.  Plus a systematic sweep on a '
+        'scalar and counted; encrypted records with random bodies interleaved; random physical layout.  Rarer shapes: 10..30 logical files, '
+        'one template of 30..80 attributes, one set of 100..400 objects, counts >= 127 / ASCII >= 16384 bytes / units >= 127 bytes (2% of '
+        'the files), private set types one or two characters away from FILE-HEADER / ORIGIN / CHANNEL / FRAME, those reserved words '
+        'used as set name, object identifier or column label, redundant sets (identical copy of an earlier named set) and replacement '
+        'sets (same type and name, new content).  Every decoded table is also addressed by column label and by object name.  Plus a systematic sweep on a '
         '3-column template: focus column x template role {ATTRIB, INVATR} x 16 template characteristic subsets x object component '
         '{16 subsets, ABSATR, omitted} x omission depth 0..3.  A case is one file (distinct by its bytes); non-trivial = it contains an '
         'overriding characteristic, an absent or invariant attribute, trailing omission, an encrypted record or >= 2 logical files.')
 ASSUMPTIONS = [
     'only structures of RP66V1 section 3 are generated: template attributes always carry a label; object components never carry a label; '
-    'duplicate labels / duplicate object names are not generated; redundant and replacement sets are not generated',
+    'duplicate labels / duplicate object names are not generated; a redundant set (role RSET) is an identical copy of an earlier named '
+    'set of the same logical file, a replacement set (role RDSET) has the type and name of an earlier set and new content; both are '
+    'explicitly formatted records and are expected as tables of their own, in file order (no merging is asserted)',
+    'a column label leads to the cell of its column (object[label]) and an object name to its row (table[name]): this is how the '
+    'table is "presented" to its users (LogPass construction addresses CHANNEL / FRAME tables this way)',
     'an object component overrides count or representation code without a value only when the template has no default value; a value is '
     'never encoded under a count of zero (RP66V1 gives such a value no meaning)',
     'representation codes the reader documents as unsupported (FSHORT, FSING1, FSING2, FDOUB1, FDOUB2, CSINGL, CDOUBL, ATTREF) are not generated',
@@ -33,7 +41,8 @@ MECHANISMS = [
     ('TotalDepth.RP66V1.core.LogicalFile', 'LogicalFile.is_next'), ('TotalDepth.RP66V1.core.LogicalFile', 'LogicalIndex.__enter__'),
     ('TotalDepth.RP66V1.core.LogicalFile', 'LogicalFile.add_eflr'),
 ]
-REQUIRED_MONITORS = ['logical_files_vs_model', 'table_vs_model', 'cell_vs_model', 'encrypted_skipped', 'record_position', 'sweep_table']
+REQUIRED_MONITORS = ['logical_files_vs_model', 'table_vs_model', 'cell_vs_model', 'encrypted_skipped', 'record_position', 'sweep_table',
+                     'lookup_by_name']
 MIN_NONTRIVIAL = {'quick': 4000, 'thorough': 60000}
 TIMEOUT_S = {'quick': 300, 'thorough': 3000}
 NSHARDS = 16
@@ -123,6 +132,28 @@ def compare_cells(exp_cells, got_cells, template_exp):
         for f in ('label', 'count', 'rc', 'units', 'value'):
             if ec[f] != gc[f]:
                 out.append({'column': i, 'field': f, 'expected': ec[f], 'observed': gc[f]})
+    return out
+
+
+def lookup_problems(e):
+    """The table as its users address it (LogPass reads channel_object[b'UNITS'], channel_eflr[obname]): a column label must lead to the
+    cell of that column, an object name to the row of that object.  -> list of problems (live objects, called while the index is open)."""
+    out = []
+    try:
+        for i, a in enumerate(e.template.attrs):
+            if e.template[bytes(a.label)] is not a:
+                out.append('template[%r] is not template column %d' % (bytes(a.label), i))
+        for k, o in enumerate(e.objects):
+            if e[o.name] is not o:
+                out.append('table[%r] is not row %d' % (o.name, k))
+            for i, a in enumerate(o.attrs):
+                lab = bytes(e.template.attrs[i].label)
+                if o[lab] is not a:
+                    out.append('row %d [%r] is not the cell of column %d' % (k, lab, i))
+            if len(out) > 5:
+                break
+    except Exception as ex:  # noqa
+        out.append('lookup raised %s: %s' % (type(ex).__name__, ex))
     return out
 
 
@@ -294,20 +325,83 @@ class Entry:
         self.table, self.payload, self.lr = table, payload, lr
 
 
+RESERVED_WORDS = (b'FILE-HEADER', b'ORIGIN', b'CHANNEL', b'FRAME', b'WELL-REFERENCE')
+# private set types that differ from a reserved one by a character or two (they are ordinary sets: no logical file starts at them)
+NEAR_MISS_SET_TYPES = (b'FILE-HEADERS', b'XFILE-HEADER', b'FILE-HEADE', b'FILE', b'HEADER', b'FILE-HEADER-2', b'FILE_HEADER', b'ORIGINS',
+                       b'CHANNELS', b'FRAMES', b'FRAME-DATA', b'ORIGI')
+
+
+def spice_with_reserved_words(rng, t):
+    """Put a reserved set type word where it is only a name: set name, object identifier or column label."""
+    r = rng.random()
+    w = rng.choice(RESERVED_WORDS)
+    if r < 0.4 or not t.objects:
+        t.set_name = w
+    elif r < 0.7:
+        o = rng.choice(t.objects)
+        nm = (o.name[0], o.name[1], w)
+        if all(x.name != nm for x in t.objects):
+            o.name = nm
+    elif all(ta.label != w for ta in t.template):
+        rng.choice(t.template).label = w
+
+
 def build_random_file(rng, tier, hostile):
-    """-> list of logical files, each a list of Entry.  hostile: may contain invariant attributes and objects without components."""
+    """-> (list of logical files, each a list of Entry; extra class names).
+    hostile: may contain invariant attributes and objects without components."""
     from tdv.gen import eflr as E
     from tdv.gen.dlis import LR
-    big = tier == 'thorough' and rng.random() < 0.05
-    nlf = rng.choice([1, 1, 1, 2, 2, 3, 4])
+    big = rng.random() < (0.05 if tier == 'thorough' else 0.02)
+    shape = rng.random()
+    many_lf, wide, long_ = shape < 0.03, 0.03 <= shape < 0.06, 0.06 <= shape < 0.09
+    nlf = rng.randrange(10, 31) if many_lf else rng.choice([1, 1, 1, 2, 2, 3, 4])
     kw = dict(allow_invariant=hostile, allow_all_omitted=hostile, big=big)
     lfs = []
+    extra = set()
+    if big:
+        extra.add('big-values(count>=127,ascii>=16384,units>=127)')
+    if many_lf:
+        extra.add('logical-files>=10')
     for i in range(nlf):
         ents = []
 
         def add(t):
             p = t.encode()
             ents.append(Entry(t, p, LR(True, t.lr_type, p, False)))
+
+        def further_set(k):
+            if wide and k == 0:
+                extra.add('template>=30-attributes')
+                return E.random_table(rng, n_attrs=rng.randrange(30, 81), max_objects=4, **kw)
+            if long_ and k == 0:
+                extra.add('objects>=100')
+                return E.random_table(rng, max_attrs=3, n_objects=rng.randrange(100, 401), **kw)
+            if rng.random() < 0.04:
+                extra.add('near-miss-of-a-reserved-set-type')
+                return E.random_table(rng, set_type=rng.choice(NEAR_MISS_SET_TYPES), lr_type=rng.choice([128, 129, 200, 255]), **kw)
+            t = E.random_table(rng, **kw)
+            if rng.random() < 0.06:
+                extra.add('reserved-word-as-a-name')
+                spice_with_reserved_words(rng, t)
+            return t
+
+        def maybe_copy():
+            """A redundant set (identical copy of an earlier named set of this logical file) or a replacement set (same type and name,
+            new content), RP66V1 3.2.2.1: both are explicitly formatted records and are presented as tables like any other."""
+            named = [e.table for e in ents[2:] if e.table is not None and e.table.set_name is not None and e.table.set_role == E.ROLE_SET
+                     and e.table.set_type != b'ORIGIN']
+            if not named or rng.random() >= 0.06:
+                return
+            src = rng.choice(named)
+            if rng.random() < 0.6:
+                t = E.Table(src.lr_type, src.set_type, src.set_name, src.template, src.objects)
+                t.set_role = E.ROLE_RSET
+            else:
+                t = E.random_table(rng, set_type=src.set_type, lr_type=src.lr_type, **kw)
+                t.set_name = src.set_name
+                t.set_role = E.ROLE_RDSET
+            extra.add('redundant-or-replacement-set')
+            add(t)
 
         def maybe_encrypted(p=0.2):
             while rng.random() < p:
@@ -318,12 +412,15 @@ def build_random_file(rng, tier, hostile):
         add(E.file_header_table(rng, i + 1))
         add(E.origin_table(rng, **kw))
         maybe_encrypted()
-        nsets = rng.choice([0, 1, 2, 3, rng.randrange(0, 9)])
-        for _ in range(nsets):
-            add(E.random_table(rng, **kw))
+        nsets = rng.choice([0, 1, 2]) if many_lf else rng.choice([0, 1, 2, 3, rng.randrange(0, 9)])
+        if (wide or long_) and i == 0:
+            nsets = max(nsets, 1)
+        for k in range(nsets):
+            add(further_set(k if i == 0 else 1))
             maybe_encrypted()
+            maybe_copy()
         lfs.append(ents)
-    return lfs
+    return lfs, sorted(extra)
 
 
 def run_file(ctx, chk, lfs, classes_extra=(), case=True):
@@ -346,6 +443,8 @@ def run_file(ctx, chk, lfs, classes_extra=(), case=True):
     for e in entries:
         if e.table is not None:
             feats |= e.table.features()
+    if any(e.table is not None and len(e.payload) >= 65536 for e in entries):
+        feats.add('table-record>=65536-bytes')
     nenc = sum(1 for e in entries if e.table is None)
     if nenc:
         feats.add('encrypted-neighbour')
@@ -366,7 +465,8 @@ def run_file(ctx, chk, lfs, classes_extra=(), case=True):
         with LogicalFile.LogicalIndex(io.BytesIO(data)) as li:
             observed = []
             for lf in li.logical_files:
-                observed.append([(int(pe.lrsh_position.vr_position), int(pe.lrsh_position.lrsh_position), dump_eflr(pe.eflr)) for pe in lf.eflrs])
+                observed.append([(int(pe.lrsh_position.vr_position), int(pe.lrsh_position.lrsh_position), dump_eflr(pe.eflr),
+                                  lookup_problems(pe.eflr)) for pe in lf.eflrs])
     except Exception as ex:  # noqa
         index_exc = ex
     if observed is not None:
@@ -389,8 +489,12 @@ def run_file(ctx, chk, lfs, classes_extra=(), case=True):
                 ri += 1
                 if e.table is None:
                     continue
-                vrp, lrp, got = obs[j]
+                vrp, lrp, got, lookups = obs[j]
                 j += 1
+                rec.mon('lookup_by_name')
+                if lookups:
+                    chk.violation('lookup_by_name', 'lookup', 'addressing the table by label / object name: %s' % '; '.join(lookups[:3]),
+                                  {'problems': lookups, 'table': e.table.describe(), 'payload': e.payload})
                 rec.mon('record_position')
                 if (vrp, lrp) != (rm.vr_position, rm.lrsh_position):
                     positions_ok = False
@@ -520,8 +624,8 @@ def run_shard(ctx, p):
     run_sweep(ctx, chk, p['part'], p['parts'])
     for i in range(p['files']):
         hostile = rng.random() < 0.3
-        lfs = build_random_file(rng, ctx.tier, hostile)
-        run_file(ctx, chk, lfs, classes_extra=['may-contain-invatr/no-component-objects'] if hostile else ['plain-file'])
+        lfs, extra = build_random_file(rng, ctx.tier, hostile)
+        run_file(ctx, chk, lfs, classes_extra=(['may-contain-invatr/no-component-objects'] if hostile else ['plain-file']) + extra)
         if rec.unknown_count > 3 * MAX_UNKNOWN_RECORDED:
             break
     if contracts is not None:
